@@ -6,7 +6,7 @@ HOOKS = {
     "source_commits": [],
     "add_only": True,
 }
-NOTES = ("Every check = proof gate (lake build, forbidden-token scan, #print axioms of the property theorems; for C01 C02 C03 C04 C05 C08 C10 C11 C12 C15 C17 also "
+NOTES = ("Every check = proof gate (lake build, forbidden-token scan, #print axioms of the property theorems; for C01 C02 C03 C04 C05 C07 C08 C10 C11 C12 C15 C17 also "
          "the generated-model gate: re-translation of the Python sources by tools/py2lean.py and re-check of BBProofs/GenEq.lean) + correspondence "
          "(real bblean from /repo vs the compiled Lean model on the same histories) + direct oracle search; see DESIGN.md §2.2. "
          "Fix commits in /repo: see known_findings.json.")
@@ -115,10 +115,11 @@ CLAIMS = {
                 "on ties), C07_descend, C07_leaf (merge iff accepted, else new cluster), C07_accept, C07_seeds, C07_mask (entry moves iff "
                 "it is seed 1 or strictly closer to it), C07_split_nonempty (both halves non-empty for any entries), C07_valid state that "
                 "it has the clauses of the property. Equality of the code with it: correspondence on sorted AND leaf-order reports after "
-                "every operation; three-way differential with the legacy uint8/int64 variants.",
+                "every operation; three-way differential with the legacy uint8/int64 variants."
+                + GEN.format(src="_BFSubcluster.merge_subcluster of bitbirch.py (the leaf step: merged iff the criterion accepts; theorem C07_code_leaf)", prop="C07"),
         "note": TB + "PARTIAL: that the code equals the specification is differential (generated histories), not a proof; the legacy "
                 "implementations are not modelled (three-way differential only, cases where they raise are dropped and counted).",
-        "technique": "Lean 4 theorems about the executable specification + differential correspondence + 3-way legacy differential",
+        "technique": TGEN,
     },
     "C08": {
         "text": "Theorem C08_wf: along every history consistent with a labelling D, at every node of the tree: 1 <= #entries <= node "
